@@ -1,4 +1,5 @@
 import Cgm.Lemmas.AuditCmd
 import Cgm.Props.C08
 import Cgm.Props.C08c
+import Cgm.Props.C08b
 #audit_namespace Cg.C08
